@@ -217,7 +217,7 @@ static std::vector< uint_fast32_t > check_copies(Result &R, const WiringCase &w,
         continue;
       }
       if (a == NEIGHBOUR_OUTSIDE || a >= Aact || orig[a] != (int)b) {
-        R.violation(fmt("C03:copies:neighbour:%s:%s", key.c_str(), DIRNAME[o]), txt + fmt(": subgrid %zu (copy of %d) has neighbour %u (copy of %d) through %s, the geometric neighbour is %u", s, o0, (unsigned)a, a < Aact ? orig[a] : -1, DIRNAME[o], (unsigned)b), rp);
+        R.violation(fmt("C03:copies:neighbour:%s:%s:dlevel%+d", key.c_str(), DIRNAME[o], (int)lev[o0] - (int)lev[b]), txt + fmt(": subgrid %zu (copy of %d, level %d) has neighbour %u (%s) through %s, the geometric neighbour is %u (level %d)", s, o0, (int)lev[o0], (unsigned)a, a == NEIGHBOUR_OUTSIDE ? "outside" : (a < Aact ? fmt("copy of %d", orig[a]).c_str() : "no such subgrid"), DIRNAME[o], (unsigned)b, (int)lev[b]), rp);
         continue;
       }
       // originals keep pointing at originals
@@ -349,12 +349,20 @@ static void check_fold_and_push(Result &R, const WiringCase &w, Creator &g, cons
   }
 }
 
+/// copy levels are encoded base 5 (levels 0..4), subgrid 0 = least significant digit
+static const int LEVEL_BASE = 5;
 static void decode_levels(long code, int NS, std::vector< uint_fast8_t > &lev) {
   lev.assign(NS, 0);
   for (int i = 0; i < NS; ++i) {
-    lev[i] = code % 3;
-    code /= 3;
+    lev[i] = code % LEVEL_BASE;
+    code /= LEVEL_BASE;
   }
+}
+static long encode_levels(const std::vector< uint_fast8_t > &lev) {
+  long code = 0;
+  for (size_t i = lev.size(); i-- > 0;)
+    code = code * LEVEL_BASE + lev[i];
+  return code;
 }
 
 /// the restriction the callers impose: face neighbours differ by at most one level
@@ -382,16 +390,56 @@ static void wiring_one(Result &R, const WiringCase &w, bool thorough, WStats &st
   const bool is222 = (w.ns[0] == 2 && w.ns[1] == 2 && w.ns[2] == 2);
   if (NS > 4 && !is222)
     return;
-  long tot = 1;
-  for (int i = 0; i < NS; ++i)
-    tot *= 3;
+  // the level assignments (base-5 codes):
+  //  * NS <= 4: all assignments over {0,1,2,3,4} (level differences up to 4 in
+  //    both directions between touching subgrids, incl. self-neighbours)
+  //  * 2x2x2: all assignments over {0,1,2} (quick: the ones the callers allow),
+  //    plus a covering set with levels 3 and 4: checkerboards (a,b) in {0..4}^2
+  //    (face neighbours differ by |a-b|, corner neighbours too, edge neighbours
+  //    equal) and one subgrid at level 3/4 in a sea of level 0/1
+  std::vector< long > codes;
   std::vector< uint_fast8_t > lev, lev2;
-  for (long code = 0; code < tot; ++code) {
+  if (!is222) {
+    long tot = 1;
+    for (int i = 0; i < NS; ++i)
+      tot *= LEVEL_BASE;
+    for (long c = 0; c < tot; ++c)
+      codes.push_back(c);
+  } else {
+    for (long c3 = 0; c3 < 6561; ++c3) {
+      lev.assign(8, 0);
+      long c = c3;
+      for (int i = 0; i < 8; ++i) {
+        lev[i] = c % 3;
+        c /= 3;
+      }
+      if (!thorough && !caller_allows(w, lev))
+        continue;
+      codes.push_back(encode_levels(lev));
+    }
+    for (int a = 0; a < 5; ++a)
+      for (int b = 0; b < 5; ++b) {
+        if (a <= 2 && b <= 2)
+          continue; // already in the {0,1,2} set
+        lev.assign(8, 0);
+        for (int i = 0; i < 8; ++i)
+          lev[i] = (((i >> 2) + (i >> 1) + i) & 1) ? b : a;
+        codes.push_back(encode_levels(lev));
+      }
+    for (int sp = 0; sp < 8; ++sp)
+      for (int L = 3; L <= 4; ++L)
+        for (int sea = 0; sea <= 1; ++sea) {
+          lev.assign(8, sea);
+          lev[sp] = L;
+          codes.push_back(encode_levels(lev));
+        }
+  }
+  const long ncodes = (long)codes.size();
+  for (long icode = 0; icode < ncodes; ++icode) {
+    const long code = codes[icode];
     if (only_code >= 0 && code != only_code)
       continue;
     decode_levels(code, NS, lev);
-    if (is222 && !thorough && !caller_allows(w, lev))
-      continue;
     if (R.out_of_time())
       return;
     Creator *g = make_creator(w, fn);
@@ -406,12 +454,14 @@ static void wiring_one(Result &R, const WiringCase &w, bool thorough, WStats &st
     check_fold_and_push(R, w, *g, lev, code, st);
     delete g;
     // update_copies from another assignment must give the same network as a fresh one
-    if (!is222 || thorough) {
-      const int nother = thorough ? (NS <= 3 ? (int)tot : 9) : 3;
+    {
+      // quick: 3 other assignments (2x2x2: 1); thorough: all for NS <= 2, else 9 (2x2x2: 3)
+      const int nother = thorough ? (NS <= 2 ? (int)ncodes : (is222 ? 3 : 9)) : (is222 ? 1 : 3);
       for (int k = 0; k < nother; ++k) {
-        const long code2 = nother == (int)tot ? k : (code * 7 + 1 + k * (tot / 3 + 1)) % tot;
-        if (only_code2 >= 0 && code2 != only_code2)
-          continue;
+        const long code2 = only_code2 >= 0 ? only_code2
+                                          : codes[nother == (int)ncodes ? k : (icode * 7 + 1 + k * (ncodes / 3 + 1)) % ncodes];
+        if (only_code2 >= 0 && k > 0)
+          break;
         decode_levels(code2, NS, lev2);
         Creator *h = make_creator(w, fn);
         GUARDED(ab, { h->create_copies(lev2); h->update_copies(lev); });
@@ -467,7 +517,7 @@ static void run_wiring(Result &R, const Args &A) {
   R.evaluations += total.ev;
   R.nontrivial += total.ev;
   R.sample(fmt("{\"part\": \"wiring\", \"layouts\": \"(1..3)^3\", \"periodicities\": 8, \"cells_per_subgrid_axis\": \"1..%d\", "
-               "\"copy_levels\": \"{0,1,2}^NS for NS<=4 and 2x2x2 (%s)\"}",
+               "\"copy_levels\": \"{0..4}^NS for NS<=4; 2x2x2: {0,1,2}^8 (%s) + 56 assignments with levels 3,4\"}",
                A.thorough() ? 2 : 1, A.thorough() ? "all 6561" : "caller-restricted"));
   R.set("wiring_layout_periodicity_cases", (double)total.layouts);
   R.set("copy_level_assignments", (double)total.level_assignments);
